@@ -130,6 +130,8 @@ class World:
             return z3.IntVal(d)
         if isinstance(d, SInt):
             return d.t
+        if isinstance(d, str):  # a named dim given by its name (static spec before ir.Shape wraps it)
+            return Rho(z3.StringVal(d))
         v = d.fields.get("_value") if isinstance(d, SObj) else getattr(d, "value", None)
         if isinstance(d, (ir.SymbolicDim, SObj)):
             if v is None:
